@@ -291,7 +291,7 @@ def _chain(prefix, n):
     return [f"{prefix}{i}" for i in range(n)]
 
 
-def cyclic_families():
+def _cyclic_families_base():
     """Yields dicts {name, G, k_list, weight_type, lae_opt, mpe_opt, width}.  All instances are feasible under the
     repetition caps of the code as it is (every needed multiplicity <= the largest weight, every product <= w_max),
     so none of them is an instance of the open cap findings.
@@ -405,3 +405,56 @@ def report(ctx, what, rep, cls, args, m, key=None):
             # relative to (DESIGN 10.4), not of flowpaths -- counted in the evidence, not reported and not listed as a finding
             ctx.count("solver_specification", "highs_answers_depend_on_presolve"); return
     ctx.report(what, rep, key=key)
+
+
+def hub_family():
+    """Cyclic instances with ONE hub vertex v: s -> v -> t with weight u and c cycles through v (2 or 3 nodes long) whose edges
+    carry L*u.  The walk  s v (cycle_1)^L ... (cycle_c)^L t  of weight u explains every weight exactly (a conserving flow, one walk:
+    width 1), so the optimum of kLeastAbsErrorsCycles / kMinPathErrorCycles is 0 and kFlowDecompCycles / MinFlowDecompCycles need one
+    walk.  That walk ENTERS THE HUB c*L + 1 times through c + 1 different in-edges, each of which is repeated at most L = (its cap)/u
+    times: the connectivity rows 22a must bound the entries of v by the SUM of the caps of its in-edges.  All multiplicities, bit widths
+    and products stay within the caps of the code as it is (u >= 1), so the open cap findings do not apply.
+    Yields dicts {name, G, k_list, weight_type, width, lae_opt, mpe_opt}."""
+    import networkx as nx
+    for c in (2, 3):
+        for L in (2, 3):
+            for clen in (2, 3):
+                for (u, wt) in ((1, int), (2, int), (1.0, float)):
+                    if c == 3 and L == 3 and (clen == 3 or u == 2):
+                        continue                                  # keep the family small
+                    G = nx.DiGraph()
+                    G.add_edge("s", "v", flow=wt(u)); G.add_edge("v", "t", flow=wt(u))
+                    for j in range(c):
+                        cyc = ["v"] + [f"x{j}_{q}" for q in range(clen - 1)] + ["v"]
+                        for a, b in zip(cyc, cyc[1:]):
+                            G.add_edge(a, b, flow=wt(L * u))
+                    yield {"name": f"hub cycles={c} L={L} len={clen} u={u} {wt.__name__}", "G": G, "k_list": [1, None],
+                           "weight_type": wt, "width": 1, "lae_opt": F(0), "mpe_opt": F(0)}
+
+
+def cyclic_families():
+    """all deterministic cyclic families with closed-form optimum: (1)-(3) of _cyclic_families_base and (4) the hub family"""
+    for fam in _cyclic_families_base():
+        yield fam
+    for fam in hub_family():
+        yield fam
+
+
+def length_factor_family():
+    """DAG instances for kMinPathError with path_length_factors whose ranges are tight and whose factors are far apart, built from a
+    PERFECT decomposition (three source-to-sink paths with 1, 2 and 3 edges, i.e. encoded lengths 3, 4, 5), so the optimum is total
+    slack 0 with all slacks 0: the open findings on the factor bounds (scaled slack / bit width) do not apply, and any failure is
+    the piecewise-constant block's (the factor variable of each path must be able to take the constant of ITS range).
+    Yields dicts {name, args (without solver options), width, mpe_opt}."""
+    import networkx as nx
+    for ws in ((2, 3, 1), (1, 1, 1), (4, 2, 3)):
+        for ranges, factors in (([(3, 3), (4, 4), (5, 5)], [1, 3, 6]), ([(3, 3), (4, 4), (5, 5)], [6, 3, 1]),
+                                ([(3, 3), (4, 5)], [1, 9]), ([(0, 3), (4, 4), (5, 40)], [1, 1, 8]), ([(3, 4), (5, 5)], [0.5, 4])):
+            G = nx.DiGraph()
+            G.add_edge("a", "z", flow=ws[0])
+            G.add_edge("a", "b", flow=ws[1]); G.add_edge("b", "z", flow=ws[1])
+            G.add_edge("a", "c", flow=ws[2]); G.add_edge("c", "d", flow=ws[2]); G.add_edge("d", "z", flow=ws[2])
+            for k in (3, None):
+                yield {"name": f"length-factors ws={ws} ranges={ranges} factors={factors} k={k}",
+                       "args": dict(G=G, flow_attr="flow", k=k, weight_type=int, path_length_ranges=list(ranges), path_length_factors=list(factors)),
+                       "width": 3, "mpe_opt": F(0)}
